@@ -140,3 +140,15 @@ Definition rm_summary : option ((verdict * Z * Z) * (verdict * Z * Z) * (Z * Z *
 Theorem image_replay_from_mark_refuted :
   rm_summary = Some ((VOk, 1, 2), (VOk, 0, 2), (1, 0, true)).
 Proof. vm_compute. reflexivity. Qed.
+
+(* a backup is refused exactly while another one is in any of its stages, and an accepted one changes the stage only *)
+Theorem backup_refused_while_running : forall s,
+  (p_stage s <> 0 -> backup_start s = None) /\
+  (p_stage s = 0 -> backup_start s = Some (set_stage s BKP_STARTED)) /\
+  (forall st, In st [BKP_STARTED; BKP_WAL_CLEANUP; BKP_MAIN_COPY; BKP_WAL_COPY1; BKP_WAL_COPY2] -> backup_start (set_stage s st) = None).
+Proof.
+  intros s. unfold backup_start. repeat split.
+  - intros H. destruct (Z.eqb_spec (p_stage s) 0); [contradiction | reflexivity].
+  - intros H. rewrite H. reflexivity.
+  - intros st Hin. cbn in Hin. destruct Hin as [H|[H|[H|[H|[H|[]]]]]]; subst st; reflexivity.
+Qed.
